@@ -121,6 +121,7 @@ func checkC06(p *Prog, rp *Report) {
 		return
 	}
 	c06Is(p, rp, archT, thorough)
+	c06Names(p, rp)
 	c06Set(p, rp, archT)
 	c06Select(p, rp, archT)
 	c06Sat(p, rp)
@@ -282,6 +283,106 @@ func c06Is(p *Prog, rp *Report, archT *types.Named, thorough bool) {
 	} else {
 		r.ok("dependency.Arch.IsWildcard", p.Pos(iw.Pos()), fmt.Sprintf("%d triples: wildcard iff some component is any (the atomic all is not)", len(all)))
 	}
+}
+
+// ---- C06-NAMES ------------------------------------------------------------------
+
+// c06Names: the property's pairs are architectures "denoted by Debian names". A wildcard name of one part (any), of
+// two parts with an `any` in it (<os>-any, any-<cpu>) or of three parts leaves open every component it does not name,
+// the ABI included: parsed with ParseArch and asked with Is (both operand orders), it matches exactly the concrete
+// three-part architectures (of whatever ABI) that agree with it in the components it names.
+func c06Names(p *Prog, rp *Report) {
+	r := rp.Rule("C06-NAMES", "wildcard names (any, <os>-any, any-<cpu>, three-part) parsed by ParseArch match concrete architectures of every ABI", 1)
+	pa := p.Func("dependency", "ParseArch")
+	is := p.Method("dependency", "Arch", "Is")
+	if pa == nil || is == nil {
+		r.bad("dependency.ParseArch", "", "ParseArch / Arch.Is not found", nil)
+		return
+	}
+	pos := p.Pos(pa.Pos())
+	wild := []string{"any", "linux-any", "kfreebsd-any", "any-amd64", "any-arm64", "any-any", "any-linux-any", "any-any-arm64", "musl-any-any", "musl-linux-any", "gnu-any-amd64", "any-any-any"}
+	conc := []string{"musl-linux-arm64", "uclibc-linux-armel", "gnu-linux-amd64", "gnu-kfreebsd-amd64", "bsd-openbsd-i386", "gnu-linux-arm64", "musl-kfreebsd-amd64", "amd64", "arm64"}
+	denote := func(n string) triple {
+		parts := strings.Split(n, "-")
+		switch len(parts) {
+		case 1:
+			if n == "any" || n == "all" {
+				return triple{n, n, n}
+			}
+			return triple{"gnu", "linux", n}
+		case 2:
+			return triple{"any", parts[0], parts[1]}
+		}
+		return triple{parts[0], parts[1], parts[2]}
+	}
+	m := NewMachine(p, nil)
+	var problems []string
+	rows := 0
+	parse := func(st *State, n string) (Val, string) {
+		st.Status = stRun
+		st.Frames = nil
+		st.push(pa, []Val{n}, nil)
+		out := m.Run(st)
+		if len(out) != 1 || out[0].Status != stRet {
+			return nil, "undecided: ParseArch(" + n + "): " + retDesc(out)
+		}
+		tv, _ := st.Ret.(*TupleV)
+		if tv == nil || len(tv.E) != 2 {
+			return nil, "undecided: unexpected result shape"
+		}
+		if _, errNil := tv.E[1].(nilV); !errNil {
+			return nil, fmt.Sprintf("ParseArch(%q) fails", n)
+		}
+		return tv.E[0], ""
+	}
+	for _, w := range wild {
+		for _, c := range conc {
+			wt, ct := denote(w), denote(c)
+			want := true
+			for i := 0; i < 3; i++ {
+				if wt[i] != "any" && wt[i] != ct[i] {
+					want = false
+				}
+			}
+			for dir := 0; dir < 2; dir++ {
+				st := freshState(m, "dependency", "version")
+				wv, why := parse(st, w)
+				if why != "" {
+					problems = append(problems, why)
+					break
+				}
+				cv, why := parse(st, c)
+				if why != "" {
+					problems = append(problems, why)
+					break
+				}
+				st.Status = stRun
+				st.Frames = nil
+				if dir == 0 {
+					st.push(is, []Val{cv, wv}, nil)
+				} else {
+					st.push(is, []Val{wv, cv}, nil)
+				}
+				out := m.Run(st)
+				if len(out) != 1 || out[0].Status != stRet {
+					problems = append(problems, "undecided: Is: "+retDesc(out))
+					break
+				}
+				rows++
+				if got, _ := st.Ret.(bool); got != want {
+					a, b := c, w
+					if dir == 1 {
+						a, b = w, c
+					}
+					problems = append(problems, fmt.Sprintf("ParseArch(%q).Is(ParseArch(%q)) = %v, want %v: the name %s denotes %s, which %s %s", a, b, got, want, w, strings.Join(wt[:], "-"), map[bool]string{true: "covers", false: "does not cover"}[want], strings.Join(ct[:], "-")))
+				}
+			}
+			if len(problems) > 0 && strings.HasPrefix(problems[len(problems)-1], "undecided") {
+				break
+			}
+		}
+	}
+	fillProblems(r, "dependency.ParseArch", pos, problems, fmt.Sprintf("%d rows: %d wildcard names x %d concrete names (ABIs gnu, musl, uclibc, bsd), both operand orders", rows, len(wild), len(conc)))
 }
 
 // ---- loops --------------------------------------------------------------------
